@@ -396,6 +396,25 @@ def _emit_fn(g, source, a, blocks, vacuity, probe_insert=None):
         rules.append(("R11d", f"{cnt} `move || {{ .. }}` closure(s) replaced by vopaque_closure(): their bodies are not verified"))
     body = rewrite_body(body_src, rules, intended_panics=bool(a.get("intended_panics")))
     body = apply_r9(body, rules)
+    if a.get("inline_thread_body"):
+        # R11e: `.spawn(move || EXPR)` (a thread whose body is one expression over variables it takes by move) ->
+        # `.spawn({ EXPR; vthread_body_done() })`: the body is evaluated in place, so the callee's PRECONDITIONS are
+        # checked against the state the thread starts from (the closure owns that state: nothing else can touch it)
+        from rsx import match_close as _mc6
+        tk = tokenize(body)
+        sigk = [k for k, t in enumerate(tk) if t.kind not in ("ws", "comment")]
+        done = False
+        for q, k in enumerate(sigk):
+            if tk[k].kind == "ident" and tk[k].text == "spawn" and q + 3 < len(sigk) and tk[sigk[q + 1]].text == "(" \
+                    and tk[sigk[q + 2]].text == "move" and tk[sigk[q + 3]].text == "||":
+                closep = _mc6(tk, sigk[q + 1])
+                expr = "".join(t.text for t in tk[sigk[q + 3] + 1:closep]).strip()
+                body = "".join(t.text for t in tk[:sigk[q + 1] + 1]) + "{ " + expr + "; vthread_body_done() }" + "".join(t.text for t in tk[closep:])
+                rules.append(("R11e", f"`spawn(move || {norm(expr)[:100]})`: the thread body is evaluated in place"))
+                done = True
+                break
+        if not done:
+            raise ExtractError(f"anchor lost: `.spawn(move || EXPR)` in {f.name}")
     if a.get("tls_with"):
         # R23: `KEY.with(|x| BODY)` on a thread_local! key -> `{ let x = KEY.tls_ref(); BODY }`: the closure is applied
         # at once to a reference to this thread's instance (LocalKey::with); KEY is the unit's stand-in for the key
@@ -614,6 +633,13 @@ def _emit_fn(g, source, a, blocks, vacuity, probe_insert=None):
         rep = "\n".join(ra["text"]).strip("\n")
         body = replace_pattern(body, ra["pattern"], rep, f.name, int(ra.get("count", 1)))
         rules.append((ra.get("rule", "R9"), f"replace `{ra['pattern']}` -> `{norm(rep)[:200]}`"))
+    # closures without a specification: Verus treats their result as unconstrained, so a NEW one can turn a correct
+    # edit into a failed obligation.  The unit declares how many each function has (`closures=N`, default 0); more than
+    # that is an unsupported construct (exit 2), never a violation.
+    n_plain = _count_plain_closures(body)
+    f.plain_closures = n_plain
+    if n_plain > int(a.get("closures", 0)):
+        raise ExtractError(f"unsupported construct: {n_plain} closure(s) without a specification in {f.name} (the unit declares {a.get('closures', 0)})")
     for ia in blocks["inserts"]:
         txt = "\n" + "\n".join(ia["text"]) + "\n"
         if "assert" in txt or "proof" in txt:
@@ -658,13 +684,6 @@ def _emit_fn(g, source, a, blocks, vacuity, probe_insert=None):
                 body = insert_after_pattern(body, ia["alt_before"], txt, f.name, before=True)
             else:
                 raise
-    # closures without a specification: Verus treats their result as unconstrained, so a NEW one can turn a correct
-    # edit into a failed obligation.  The unit declares how many each function has (`closures=N`, default 0); more than
-    # that is an unsupported construct (exit 2), never a violation.
-    n_plain = _count_plain_closures(body)
-    f.plain_closures = n_plain
-    if n_plain > int(a.get("closures", 0)):
-        raise ExtractError(f"unsupported construct: {n_plain} closure(s) without a specification in {f.name} (the unit declares {a.get('closures', 0)})")
     loops = {n: "\n".join(v) for n, v in blocks["loops"].items()}
     body = insert_loop_specs(body, loops, f.name)
     spec = "\n".join(blocks["spec"])
